@@ -33,6 +33,7 @@
 #include "Phreeqc.h"
 #include "StorageBin.h"
 #include "Serializer.h"
+#include "Solution.h"
 #endif
 
 static int PROTO = 1;
@@ -579,14 +580,11 @@ static std::string do_cmd(const std::vector<Tok> &t) {
       P->cxxStorageBin2phreeqc(sb, n);
       return "{}";
     }
-    if (what == "serialize_roundtrip") {  // every cell: Serializer -> Deserialize into a bin -> back into the engine
-      cxxStorageBin sb;
-      P->phreeqc2cxxStorageBin(sb);
+    if (what == "serialize_roundtrip") {  // cells lo..hi: Serializer -> Deserialize back into the engine
+      int lo = t.size() > 3 ? atoi(t[3].s.c_str()) : 0, hi = t.size() > 4 ? atoi(t[4].s.c_str()) : 1000;
       Serializer ser;
-      for (auto it = sb.Get_Solutions().begin(); it != sb.Get_Solutions().end(); ++it) ser.Serialize(sb, it->first, it->first, true);
-      cxxStorageBin sb2;
-      ser.Deserialize(*P, sb2, ser.GetDictionary(), ser.GetInts(), ser.GetDoubles());
-      P->cxxStorageBin2phreeqc(sb2);
+      ser.Serialize(*P, lo, hi, true, true);
+      ser.Deserialize(*P, ser.GetDictionary(), ser.GetInts(), ser.GetDoubles());
       return "{\"ints\":" + jint((long)ser.GetInts().size()) + ",\"doubles\":" + jint((long)ser.GetDoubles().size()) + "}";
     }
     throw std::runtime_error("unknown wb op " + what);
